@@ -139,11 +139,31 @@ func runC07(c *an.Ctx) {
 			if seen[k] > 1 {
 				key += fmt.Sprintf("#%d", seen[k])
 			}
-			if _, isI := ta.AssertedType.Underlying().(*types.Interface); isI {
-				c.Note("R2", key, ta.Pos(), "assertion to an interface type: not analysed")
+			why := c07AssertAllow[k]
+			if it, isI := ta.AssertedType.Underlying().(*types.Interface); isI {
+				// assertion to an interface: every possible dynamic type must implement it
+				ts, okProv := c.P.DynTypes(ta.X)
+				var names, missing []string
+				for _, t := range ts {
+					n := types.TypeString(t, shortQualifier)
+					names = append(names, n)
+					if !types.Implements(t, it) {
+						missing = append(missing, n)
+					}
+				}
+				switch {
+				case why != "":
+					c.Note("R2", key, ta.Pos(), "not decided mechanically; manual argument: "+why)
+				case !okProv:
+					c.Bad("R2", key, ta.Pos(), "unchecked assertion to interface "+want+" whose operand's dynamic type cannot be established ("+tempName.ReplaceAllString(an.Expr(ta.X), "")+")", "types found so far: "+strings.Join(names, ", "))
+				case len(missing) > 0:
+					c.Bad("R2", key, ta.Pos(), "unchecked assertion to interface "+want+" but the operand may hold "+strings.Join(missing, ", ")+", which does not implement it: panics with 'interface conversion ... missing method'")
+				default:
+					c.Ok("R2", key, ta.Pos(), "every possible dynamic type ("+strings.Join(names, ", ")+") implements "+want)
+				}
 				return
 			}
-			if why, ok := c07AssertAllow[k]; ok {
+			if why != "" {
 				c.Note("R2", key, ta.Pos(), "not decided mechanically; manual argument: "+why)
 				return
 			}
@@ -184,6 +204,7 @@ func runC07(c *an.Ctx) {
 	c07Optional(c)
 	c07UseAfterError(c, fns)
 	c07Nullable(c, fns)
+	c07UnsetPtr(c)
 
 	// ---- R4 typestate.
 	c07Typestate(c)
@@ -204,6 +225,161 @@ func runC07(c *an.Ctx) {
 
 	// ---- R7 include bound.
 	c07Include(c)
+
+	// ---- R8 sizes handed to allocation primitives.
+	c07Sizes(c)
+}
+
+// c07SizeAllow: sizes whose non-negativity rests on a library contract rather than on the code's shape.
+var c07SizeAllow = map[string]string{}
+
+// c07Sizes: strings.Builder.Grow, bytes.Buffer.Grow, strings/bytes.Repeat and make panic on a
+// negative size ("negative count", "len out of range"); make additionally panics when len > cap.
+// Every size that is not a constant must be provably >= 0 (an.NonNeg), and a make with both
+// len and cap needs len <= cap from a guard, from identical expressions or from caller arguments.
+func c07Sizes(c *an.Ctx) {
+	n := 0
+	seen := map[string]int{}
+	for _, fn := range c.P.ModFuncs {
+		rp := relPkg(fn)
+		if strings.HasSuffix(rp, "/generator") || strings.HasPrefix(rp, "testing") || strings.HasPrefix(rp, "examples") || rp == "magefiles" {
+			continue
+		}
+		an.Instrs(fn, func(in ssa.Instruction) {
+			type sz struct {
+				what string
+				v    ssa.Value
+			}
+			var sizes []sz
+			switch x := in.(type) {
+			case *ssa.MakeSlice:
+				sizes = append(sizes, sz{"make len", x.Len})
+				if x.Cap != x.Len {
+					sizes = append(sizes, sz{"make cap", x.Cap})
+				}
+			case ssa.CallInstruction:
+				cc := x.Common()
+				callee := cc.StaticCallee()
+				if callee == nil {
+					return
+				}
+				switch callee.String() {
+				case "(*strings.Builder).Grow", "(*bytes.Buffer).Grow":
+					sizes = append(sizes, sz{callee.Name() + " of " + strings.TrimPrefix(strings.TrimSuffix(strings.Split(callee.String(), ")")[0], ")"), "(*"), cc.Args[1]})
+				case "strings.Repeat", "bytes.Repeat":
+					sizes = append(sizes, sz{callee.String() + " count", cc.Args[1]})
+				case "slices.Grow":
+					sizes = append(sizes, sz{"slices.Grow", cc.Args[1]})
+				}
+			}
+			for _, s := range sizes {
+				if _, isC := s.v.(*ssa.Const); isC {
+					if ok, _ := c.P.NonNeg(s.v, in); ok {
+						continue
+					}
+				}
+				n++
+				c.FuncsAnalysed[fn] = true
+				k := s.what + " " + tempName.ReplaceAllString(an.Expr(s.v), "") + " in " + an.RelName(fn)
+				seen[k]++
+				key := k
+				if seen[k] > 1 {
+					key += fmt.Sprintf("#%d", seen[k])
+				}
+				if why, ok := c07SizeAllow[k]; ok {
+					c.Note("R8", key, in.Pos(), "not decided mechanically; manual argument: "+why)
+					continue
+				}
+				if ok, why := c.P.NonNeg(s.v, in); ok {
+					c.Ok("R8", key, in.Pos(), "size is non-negative: "+why)
+				} else {
+					c.Bad("R8", key, in.Pos(), "size handed to an allocation primitive may be negative ("+why+"): a negative size panics ('negative count' / 'len out of range')")
+				}
+			}
+			if m, ok := in.(*ssa.MakeSlice); ok && m.Cap != m.Len {
+				// len <= cap
+				l, cp := an.Expr(m.Len), an.Expr(m.Cap)
+				k := "make len<=cap " + tempName.ReplaceAllString(l+" <= "+cp, "") + " in " + an.RelName(fn)
+				f := an.FactsAt(in)
+				lc, lIsC := an.ConstInt(m.Len)
+				cc2, cIsC := an.ConstInt(m.Cap)
+				switch {
+				case lIsC && cIsC && lc <= cc2:
+				case lIsC && lc == 0:
+				case f.Has(l, "<=", cp) || f.Has(l, "<", cp) || f.Has(cp, ">=", l) || f.Has(cp, ">", l):
+					n++
+					c.Ok("R8", k, in.Pos(), "dominating guard")
+				default:
+					n++
+					if okc, why := c07LenLeCapByCallers(c, fn, m); okc {
+						c.Ok("R8", k, in.Pos(), why)
+					} else {
+						c.Bad("R8", k, in.Pos(), "make with len "+tempName.ReplaceAllString(l, "")+" and cap "+tempName.ReplaceAllString(cp, "")+": no guard gives len <= cap ("+why+"); len > cap panics")
+					}
+				}
+			}
+		})
+	}
+	c.MinCount("R8", "non-constant allocation sizes", n, 20)
+}
+
+// c07LenLeCapByCallers: len is a parameter and cap is len(another parameter): every call
+// site passes a position that a guard bounds by the length of the slice it passes.
+func c07LenLeCapByCallers(c *an.Ctx, fn *ssa.Function, m *ssa.MakeSlice) (bool, string) {
+	lp, ok := m.Len.(*ssa.Parameter)
+	if !ok {
+		return false, "len is not a parameter"
+	}
+	call, ok := m.Cap.(*ssa.Call)
+	if !ok {
+		return false, "cap is not len(parameter)"
+	}
+	b, ok := call.Call.Value.(*ssa.Builtin)
+	if !ok || b.Name() != "len" {
+		return false, "cap is not len(parameter)"
+	}
+	cp, ok := call.Call.Args[0].(*ssa.Parameter)
+	if !ok {
+		return false, "cap is not len(parameter)"
+	}
+	li, ci := -1, -1
+	for i, p := range fn.Params {
+		if p == lp {
+			li = i
+		}
+		if p == cp {
+			ci = i
+		}
+	}
+	sites := c.P.CallSites(func(in ssa.Instruction) bool { return an.IsCallTo(in, fn) })
+	if li < 0 || ci < 0 || len(sites) == 0 {
+		return false, "no call sites"
+	}
+	for _, s := range sites {
+		args := s.Call.Common().Args
+		pos, buf := args[li], args[ci]
+		pe, be := an.Expr(pos), "len("+an.Expr(buf)+")"
+		f := an.FactsAt(s.Call)
+		if f.Has(pe, "<", be) || f.Has(pe, "<=", be) || f.Has(be, ">", pe) || f.Has(be, ">=", pe) {
+			continue
+		}
+		// position produced by a scan of the same buffer (IndexByte/IndexAny/... >= 0 implies < len)
+		if pc, ok := pos.(*ssa.Call); ok {
+			if callee := pc.Call.StaticCallee(); callee != nil && (strings.HasPrefix(callee.Name(), "Index") || strings.HasPrefix(callee.Name(), "index")) && len(pc.Call.Args) > 0 && an.Expr(pc.Call.Args[0]) == an.Expr(buf) {
+				continue
+			}
+		}
+		// position produced by ranging over the same string
+		if ex, ok := pos.(*ssa.Extract); ok && ex.Index == 1 {
+			if nx, ok := ex.Tuple.(*ssa.Next); ok && nx.IsString {
+				if rg, ok := nx.Iter.(*ssa.Range); ok && an.Expr(rg.X) == an.Expr(buf) {
+					continue
+				}
+			}
+		}
+		return false, "call in " + an.RelName(s.Fn) + " passes " + tempName.ReplaceAllString(pe, "") + " with no guard bounding it by " + tempName.ReplaceAllString(be, "")
+	}
+	return true, fmt.Sprintf("every one of the %d call sites bounds the position by the buffer's length", len(sites))
 }
 
 func shortQualifier(p *types.Package) string { return p.Name() }
